@@ -357,11 +357,14 @@ def r5(idx, rep):
             okw = fi.qual in allowed or fi.cls in listed
             rep.check(okw, "R5", f"{fi.file}::{fi.qual} writes csvpath.variables", f"`{unparse(n)}`: variables may be written only through set_variable/get_variable", K.where(fi, n))
     # Matcher forwards both calls unchanged
-    for nm in ("get_variable", "set_variable"):
-        fm = idx.method("Matcher", nm)
-        src = unparse(fm.node)
-        want = "self.csvpath.get_variable(name, tracking=tracking, set_if_none=set_if_none)" if nm == "get_variable" else "self.csvpath.set_variable(name, value=value, tracking=tracking)"
-        rep.check(want in src, "R5", f"{fm.file}::Matcher.{nm} forwards", "", K.where(fm, fm.node))
+    seen = []
+    fm, ps = K.sym_result(idx, "Matcher", "get_variable", args={"__pos__": ["n"], "tracking": "t", "set_if_none": 0},
+                          handlers={"self.csvpath.get_variable": lambda i, c, r, a, k: (seen.append((a, k)), "V")[1]})
+    rep.check(len(ps) == 1 and ps[0].result == ("return", "V") and seen == [(["n"], {"tracking": "t", "set_if_none": 0})], "R5", f"{fm.file}::Matcher.get_variable forwards", f"{seen}", K.where(fm, fm.node))
+    seen = []
+    fm, ps = K.sym_result(idx, "Matcher", "set_variable", args={"__pos__": ["n"], "value": 5, "tracking": "t"},
+                          handlers={"self.csvpath.set_variable": lambda i, c, r, a, k: seen.append((a, k))})
+    rep.check(seen == [(["n"], {"value": 5, "tracking": "t"})], "R5", f"{fm.file}::Matcher.set_variable forwards", f"{seen}", K.where(fm, fm.node))
 
 
 def _copy(x):
